@@ -427,23 +427,21 @@ def _base_generators(ctx: Ctx) -> None:
             'antithetic normal draws: int(n/2) generated (even n required), completed by their negatives along axis 1' if ok1 and ok2 and even
             else f'antithetic normal construction not recognised (halving={ok1}, even-test={even}, mirror={ok2}): {det}', det)
     # Halton slice
+    from ..core import inline_locals
+    from ..pattern import find as pfind
+
     f = prog.func(DR, 'get_halton_draws')
-    sl = [a for a in _assigns_to(f, 'numbers') if isinstance(a.value, ast.Subscript) and isinstance(a.value.slice, ast.Slice) and unparse(a.value.value) == 'numbers']
+    rets = [n for n in walk_no_nested(f.node) if isinstance(n, ast.Return)]
+    arr = unparse(rets[-1].value) if rets else ''
+    sl = [a for a in _assigns_to(f, arr) if isinstance(a.value, ast.Subscript) and isinstance(a.value.slice, ast.Slice) and unparse(a.value.value) == arr]
     ok = False
     det = ''
     if len(sl) == 1:
         s = sl[0].value.slice
-        det = unparse(sl[0])
+        det = unparse(sl[0]).replace(arr, 'numbers')
         ts = ToSympy()
-        env = {}
-        for a in f.body:
-            if isinstance(a, ast.Assign) and isinstance(a.targets[0], ast.Name) and a.targets[0].id in ('length', 'req_length'):
-                env[a.targets[0].id] = a.value
         try:
-            lo, hi = ts(s.lower), ts(s.upper)
-            L = ts(env['length']) if 'length' in env else ts.sym('length')
-            lo = lo.subs(ts.sym('length'), L)
-            hi = hi.subs(ts.sym('length'), L)
+            lo, hi = ts(inline_locals(f.node, s.lower)), ts(inline_locals(f.node, s.upper))
             ok = equal(lo, ts.sym('skip') + 1) and equal(hi - lo, ts.sym('number_of_draws') * ts.sym('sample_size')) and s.step is None
         except AnalysisError:
             ok = False
@@ -471,10 +469,49 @@ def _base_generators(ctx: Ctx) -> None:
             'point i is (i + u_i)/n for i in range(n), n = sample_size*number_of_draws' if ok else f'MLHS stratum formula not recognised: {det}', det)
 
 
+AS241_PATTERN = """
+_Q = uniform_numbers - 0.5
+_D = np.zeros(uniform_numbers.shape)
+_R = np.zeros(uniform_numbers.shape)
+_M1 = __P1
+_R[_M1] = _K1 - _Q[_M1] * _Q[_M1]
+_D[_M1] = _Q[_M1] * (((((((_A7 * _R[_M1] + _A6) * _R[_M1] + _A5) * _R[_M1] + _A4) * _R[_M1] + _A3) * _R[_M1] + _A2) * _R[_M1] + _A1) * _R[_M1] + _A0) / (((((((_B7 * _R[_M1] + _B6) * _R[_M1] + _B5) * _R[_M1] + _B4) * _R[_M1] + _B3) * _R[_M1] + _B2) * _R[_M1] + _B1) * _R[_M1] + 1)
+_M2 = __P2
+_M2A = np.logical_and(_M2, _Q < 0.0)
+_M2B = np.logical_and(_M2, _Q >= 0.0)
+_R[_M2A] = uniform_numbers[_M2A]
+_R[_M2B] = 1 - uniform_numbers[_M2B]
+_M2C = np.logical_and(_M2, _R <= 0)
+_M2D = np.logical_and(_M2, _R > 0)
+_D[_M2C] = 0.0
+_R[_M2D] = np.sqrt(-np.log(_R[_M2D]))
+_M2DA = np.logical_and(_M2D, _R <= _S2)
+_M2DB = np.logical_and(_M2D, _R > _S2)
+_R[_M2DA] = _R[_M2DA] - _K2
+_D[_M2DA] = (((((((_C7 * _R[_M2DA] + _C6) * _R[_M2DA] + _C5) * _R[_M2DA] + _C4) * _R[_M2DA] + _C3) * _R[_M2DA] + _C2) * _R[_M2DA] + _C1) * _R[_M2DA] + _C0) / (((((((_D7 * _R[_M2DA] + _D6) * _R[_M2DA] + _D5) * _R[_M2DA] + _D4) * _R[_M2DA] + _D3) * _R[_M2DA] + _D2) * _R[_M2DA] + _D1) * _R[_M2DA] + 1)
+_R[_M2DB] = _R[_M2DB] - _S2
+_D[_M2DB] = (((((((_E7 * _R[_M2DB] + _E6) * _R[_M2DB] + _E5) * _R[_M2DB] + _E4) * _R[_M2DB] + _E3) * _R[_M2DB] + _E2) * _R[_M2DB] + _E1) * _R[_M2DB] + _E0) / (((((((_F7 * _R[_M2DB] + _F6) * _R[_M2DB] + _F5) * _R[_M2DB] + _F4) * _R[_M2DB] + _F3) * _R[_M2DB] + _F2) * _R[_M2DB] + _F1) * _R[_M2DB] + 1)
+_D[_M2A] = -_D[_M2A]
+_D.shape = (sample_size, number_of_draws)
+"""
+
+
 def _as241(ctx: Ctx) -> None:
+    """The tail of get_normal_wichura_draws is matched, as a whole, against the published algorithm written with
+    metavariables for every local; the constants bound to the coefficient metavariables are then compared with the
+    published table and the two region predicates are examined separately."""
+    from ..pattern import find
+
     prog = ctx.prog
     f = prog.func(DR, 'get_normal_wichura_draws')
-    consts: dict[str, ast.Assign] = {}
+    b = find(f.node, AS241_PATTERN)
+    ctx.add('C11.R3', 'AS241.algorithm', b is not None, f,
+            'the transform follows AS241/PPND16: q = u - 1/2; central form q*A(r)/B(r) with r = const1 - q^2; tails r = min(u, 1-u), r = sqrt(-ln r), C/D form on r - const2 for r <= split2, E/F form on r - split2 beyond; sign restored for q < 0; Horner forms in published coefficient order'
+            if b is not None else 'the statements of get_normal_wichura_draws after `q = u - 0.5` are not the AS241 algorithm (rational forms, tail handling, shifts by const2 / split2 or sign restoration changed)',
+            'algorithm')
+    if b is None:
+        return
+    consts = {}
     for st in f.body:
         if isinstance(st, ast.Assign) and len(st.targets) == 1 and isinstance(st.targets[0], ast.Name):
             try:
@@ -482,116 +519,45 @@ def _as241(ctx: Ctx) -> None:
             except ValueError:
                 continue
             if isinstance(v, (int, float)) and not isinstance(v, bool):
-                consts[st.targets[0].id] = st
-    n = 0
-    for name, val in AS241.items():
-        if name == 'split1':
-            continue
-        if name not in consts:
-            raise AnalysisError(f'C11.R3: constant {name} of AS241 not found in get_normal_wichura_draws')
-        got = float(const_value(consts[name].value))
-        ok = got == float(val)
-        n += 1
-        ctx.add('C11.R3', f'AS241.{name}', ok, (f.file, consts[name].lineno),
-                f'{name} = {got!r}' + ('' if ok else f', published {val!r}'), detail=f'{name}={got!r}')
-    # statements after `q = u - 0.5`
-    body = f.body
-    assigns = [s for s in body if isinstance(s, ast.Assign)]
-    amap: dict[str, list[ast.Assign]] = {}
-    for s in assigns:
-        amap.setdefault(unparse(s.targets[0]), []).append(s)
+                consts[st.targets[0].id] = (float(v), st.lineno)
+    roles = {'_K1': 'const1', '_K2': 'const2', '_S2': 'split2'}
+    for c in 'ABCDEF':
+        for k in range(8):
+            if k == 0 and c in 'BDF':
+                continue
+            roles[f'_{c}{k}'] = f'{c.lower()}{k}'
+    for mv, pub in roles.items():
+        local = b.get(mv)
+        if local is None or local not in consts:
+            raise AnalysisError(f'C11.R3: the {pub} of AS241 (local {local}) is not a constant of get_normal_wichura_draws')
+        got, line = consts[local]
+        ok = got == float(AS241[pub])
+        ctx.add('C11.R3', f'AS241.{pub}', ok, (f.file, line), f'{pub} = {got!r}' + ('' if ok else f', published {AS241[pub]!r}'), detail=f'{pub}={got!r}')
+    Q = b['_Q']
 
-    def one(name):
-        if name not in amap:
-            raise AnalysisError(f'C11.R3: assignment to {name} not found in get_normal_wichura_draws')
-        return amap[name]
+    def region(key: str, what: str, want_op: str):
+        e = b[key][1]
+        txt = unparse(e)
+        ok = False
+        arg = thr = op = None
+        if isinstance(e, ast.Compare) and len(e.ops) == 1 and isinstance(e.left, ast.Call) and (dotted(e.left.func) or '').endswith('abs') and len(e.left.args) == 1:
+            arg = unparse(e.left.args[0])
+            op = type(e.ops[0]).__name__
+            try:
+                thr = float(const_value(e.comparators[0]))
+            except ValueError:
+                c = consts.get(unparse(e.comparators[0]))
+                thr = c[0] if c else None
+            ok = arg == Q and op == want_op and thr == AS241['split1']
+        shown = txt.replace(Q, 'q') if arg == Q else txt
+        ctx.add('C11.R3', f'AS241.region.{what}', ok, (f.file, e.lineno), f'{what} form selected by {txt}' + ('' if ok else f'; AS241 selects it by abs(q) {"<=" if want_op == "LtE" else ">"} 0.425 with q = u - 0.5'), detail=shown)
+        return arg, op, thr
 
-    U = 'uniform_numbers'
-    q = one('q')[0]
-    ts = ToSympy()
-    okq = equal(ts(q.value), ts.sym(U) - sp.Rational(1, 2))
-    ctx.add('C11.R3', 'AS241.q', okq, (f.file, q.lineno), f'q = {unparse(q.value)}', unparse(q.value))
-
-    def split_of(cond_name: str):
-        s = one(cond_name)[0]
-        v = s.value
-        if not (isinstance(v, ast.Compare) and len(v.ops) == 1 and isinstance(v.left, ast.Call) and (dotted(v.left.func) or '').endswith('abs') and len(v.left.args) == 1):
-            raise AnalysisError(f'C11.R3: {cond_name} is not a comparison of an absolute value')
-        arg = unparse(v.left.args[0])
-        try:
-            thr = const_value(v.comparators[0])
-        except ValueError:
-            c = consts.get(unparse(v.comparators[0]))
-            if c is None:
-                raise AnalysisError(f'C11.R3: threshold of {cond_name} is not a constant')
-            thr = const_value(c.value)
-        return s, arg, type(v.ops[0]).__name__, float(thr)
-
-    s1, arg1, op1, thr1 = split_of('cond1')
-    good1 = arg1 == 'q' and op1 == 'LtE' and thr1 == AS241['split1']
-    ctx.add('C11.R3', 'AS241.region.central', good1, (f.file, s1.lineno),
-            f'central rational form selected by {unparse(s1.value)}' + ('' if good1 else '; AS241 selects it by abs(q) <= 0.425 with q = u - 0.5'),
-            detail=unparse(s1.value))
-    s2, arg2, op2, thr2 = split_of('cond2')
-    good2 = arg2 == 'q' and op2 == 'Gt' and thr2 == AS241['split1']
-    compl = arg2 == arg1 and thr2 == thr1 and (op1, op2) == ('LtE', 'Gt')
-    ctx.add('C11.R3', 'AS241.region.tails', good2, (f.file, s2.lineno),
-            f'tail forms selected by {unparse(s2.value)}' + ('' if good2 else '; AS241 selects them by abs(q) > 0.425'), detail=unparse(s2.value))
-    ctx.add('C11.R3', 'AS241.region.partition', compl, (f.file, s2.lineno),
-            'central and tail regions are complementary' if compl else f'{unparse(s1.value)} and {unparse(s2.value)} are not complementary',
-            detail=unparse(s1.value) + ' / ' + unparse(s2.value))
-
-    def hook(node, tsx):
-        if isinstance(node, ast.Subscript) and isinstance(node.value, ast.Name):
-            return tsx.sym(node.value.id)
-        return None
-
-    def poly(prefix, lo, r):
-        return sum(sp.Symbol(f'{prefix}{k}') * r**k for k in range(lo, 8))
-
-    def horner(target: str, num: str, den: str, lead_q: bool):
-        s = one(target)[0]
-        tsx = ToSympy(hook=hook)
-        got = tsx(s.value)
-        r = tsx.sym('r')
-        want = (poly(num, 0, r)) / (poly(den, 1, r) + 1)
-        if lead_q:
-            want = tsx.sym('q') * want
-        ok = sp.simplify(sp.together(got) - sp.together(want)) == 0
-        ctx.add('C11.R3', f'AS241.horner.{num}{den}', ok, (f.file, s.lineno),
-                f'draws[{target.split("[")[1][:-1]}] is ' + ('q * ' if lead_q else '') + f'P_{num}(r)/Q_{den}(r) with the coefficients in published order'
-                if ok else f'rational form for {target} is not ' + ('q*' if lead_q else '') + f'sum({num}k r^k)/(1+sum({den}k r^k))',
-                detail=digest_text(unparse(s.value)))
-
-    horner('draws[cond1]', 'a', 'b', True)
-    horner('draws[cond2d_a]', 'c', 'd', False)
-    horner('draws[cond2d_b]', 'e', 'f', False)
-
-    # r definitions
-    def expect(target: str, want_text: set[str], what: str, idx: int = 0):
-        ss = one(target)
-        s = ss[idx] if idx < len(ss) else ss[-1]
-        got = unparse(s.value).replace(' ', '')
-        ok = got in {w.replace(' ', '') for w in want_text}
-        ctx.add('C11.R3', f'AS241.{what}', ok, (f.file, s.lineno), f'{target} = {unparse(s.value)}' + ('' if ok else f' (expected {sorted(want_text)[0]})'), detail=unparse(s))
-
-    expect('r[cond1]', {'const1 - q[cond1] * q[cond1]', 'const1 - q[cond1] ** 2'}, 'r.central')
-    expect('cond2a', {'np.logical_and(cond2, q < 0.0)', 'np.logical_and(cond2, q < 0)'}, 'lower-tail')
-    expect('cond2b', {'np.logical_and(cond2, q >= 0.0)', 'np.logical_and(cond2, q >= 0)'}, 'upper-tail')
-    expect('r[cond2a]', {f'{U}[cond2a]'}, 'r.lower')
-    expect('r[cond2b]', {f'1 - {U}[cond2b]', f'1.0 - {U}[cond2b]'}, 'r.upper')
-    expect('r[cond2d]', {'np.sqrt(-np.log(r[cond2d]))'}, 'r.sqrtlog')
-    expect('cond2d', {'np.logical_and(cond2, r > 0)', 'np.logical_and(cond2, r > 0.0)'}, 'r.positive')
-    expect('cond2d_a', {'np.logical_and(cond2d, r <= split2)'}, 'split2.near')
-    expect('cond2d_b', {'np.logical_and(cond2d, r > split2)'}, 'split2.far')
-    expect('r[cond2d_a]', {'r[cond2d_a] - const2'}, 'r.shift.near')
-    expect('r[cond2d_b]', {'r[cond2d_b] - split2'}, 'r.shift.far')
-    expect('draws[cond2a]', {'-draws[cond2a]'}, 'sign')
-    # order: the sign flip comes after the three rational forms
-    sign = one('draws[cond2a]')[0]
-    last_form = max(one(t)[0].lineno for t in ('draws[cond1]', 'draws[cond2d_a]', 'draws[cond2d_b]'))
-    ctx.add('C11.R3', 'AS241.sign.order', sign.lineno > last_form, (f.file, sign.lineno), 'the sign is restored after the tail forms are evaluated', 'order')
-    ctx.floor('C11.R3', 60)
+    a1 = region('__P1', 'central', 'LtE')
+    a2 = region('__P2', 'tails', 'Gt')
+    compl = a1[0] == a2[0] and a1[2] == a2[2] and (a1[1], a2[1]) == ('LtE', 'Gt')
+    ctx.add('C11.R3', 'AS241.region.partition', compl, f, 'central and tail regions are complementary' if compl else 'the central and the tail predicates are not complementary', f'{a1}/{a2}')
+    ctx.floor('C11.R3', 50)
 
 
 def digest_text(t: str) -> str:
